@@ -7,6 +7,7 @@ mod hist;
 mod model;
 mod oracle;
 mod props_algo;
+mod props_gen;
 mod props_model;
 mod props_path;
 mod props_xml;
@@ -78,6 +79,8 @@ fn main() {
         "C18" => props_algo::run_c18(&a),
         "C14" => props_xml::run_c14(&a),
         "C19" => props_xml::run_c19(&a),
+        "C16" => props_gen::run_c16(&a),
+        "C17" => props_gen::run_c17(&a),
         "C15" => props_model::run_c15(&a),
         other => {
             eprintln!("unknown property {}", other);
